@@ -497,7 +497,7 @@ func expectStr(e expectation) string {
 
 func Run(r *ev.Run) {
 	log.SetOutput(io.Discard) // the package logs alias loops through the standard logger
-	r.Rule("reference resolver model (RFC 9460 §2.3, §2.4.2, §3 + property text) + total replay: universes = HTTPS data {none, NXDOMAIN/SERVFAIL/REFUSED/FORMERR/NOTIMP, alias chains of length 1..6 ending in {nothing, service set, alias '.', loop to origin/first/self, NXDOMAIN, SERVFAIL}, 14 service sets (1-2 records, priorities in both orders and equal, targets '.', t1, t2, port, ech)} x final-name addresses {A?,AAAA?} x address rcode {ok,NXDOMAIN,SERVFAIL} x in-answer CNAME x target addresses {none, A, A+AAAA (+second target A), SERVFAIL, first target SERVFAIL while the second has an address} x poisoned answers on/off (records of the asked type owned by an unrelated name, and an unrelated CNAME followed by data for its target, before and after the genuine records) x 12 name forms (host, host:port, URIs with http/https/other schemes, upper-case scheme, trailing dot); plus literal/localhost forms and hostile lengths (host 253..300 bytes, labels 63/64, schemes 1..300 bytes). Every query is served by an in-memory DoH responder and logged. distinct = distinct (universe, form)")
+	r.Rule("reference resolver model (RFC 9460 §2.3, §2.4.2, §3 + property text) + total replay: universes = HTTPS data {none, NXDOMAIN/SERVFAIL/REFUSED/FORMERR/NOTIMP, alias chains of length 1..6, 12 and 30 ending in {nothing, service set, alias '.', loop to origin/first/self, NXDOMAIN, SERVFAIL}, 14 service sets (1-2 records, priorities in both orders and equal, targets '.', t1, t2, port, ech)} x final-name addresses {A?,AAAA?} x address rcode {ok,NXDOMAIN,SERVFAIL} x in-answer CNAME x target addresses {none, A, A+AAAA (+second target A), SERVFAIL, first target SERVFAIL while the second has an address} x poisoned answers on/off (records of the asked type owned by an unrelated name, and an unrelated CNAME followed by data for its target, before and after the genuine records) x 12 name forms (host, host:port, URIs with http/https/other schemes, upper-case scheme, trailing dot); plus literal/localhost forms and hostile lengths (host 253..300 bytes, labels 63/64, schemes 1..300 bytes). Every query is served by an in-memory DoH responder and logged. distinct = distinct (universe, form)")
 	r.Assume("reference model in checks/c14; chains of up to 3 aliases must be followed, longer ones may be followed or abandoned (fallback to the origin's addresses or an error); alias loops must end in the fallback or an error; RRsets mixing alias and service mode are excluded (RFC 9460 leaves them to the client)",
 		"the DoH responder chases CNAMEs itself (recursive-resolver behaviour): answers carry the CNAME followed by the target's records")
 	var svcSets [][]svc
@@ -519,8 +519,7 @@ func Run(r *ev.Run) {
 	for _, s := range svcSets {
 		hs = append(hs, httpsSpec{Kind: "service", Svcs: s})
 	}
-	maxChain := 6
-	for l := 1; l <= maxChain; l++ {
+	for _, l := range []int{1, 2, 3, 4, 5, 6, 12, 30} { // 12 and 30: far beyond any sensible chain limit (bounded number of queries)
 		for _, term := range []string{"none", "dot", "loop-origin", "loop-first", "loop-self"} {
 			hs = append(hs, httpsSpec{Kind: "alias", Chain: l, Terminal: term})
 		}
